@@ -8,6 +8,8 @@ from .core import AnalysisError
 
 
 class Sym:
+    GLOBALS = frozenset()      # names of file-scope variables (set by cfacts)
+
     def __init__(self, seed=None):
         self.env = dict(seed or {})
 
@@ -57,8 +59,14 @@ class Sym:
                 if sa is not None and sa.kind == "UnaryOperator" \
                         and sa.op == "&":
                     v = var(sa.ch[0])
-                    if v:
-                        self.env[v] = f"out({v}@{n.line})"
+                    tgt = strip(sa.ch[0])
+                    # only function-local variables are out-parameters;
+                    # `&global` (e.g. Py_None) is just an address
+                    if v and v not in Sym.GLOBALS and not v.startswith("_Py_") \
+                            and tgt.refkind in ("VarDecl", "ParmVarDecl"):
+                        k = self.env.get("#out:" + v, 0) + 1
+                        self.env["#out:" + v] = k
+                        self.env[v] = f"out{k}({v})"
             return txt
         if k in ("BinaryOperator", "CompoundAssignOperator"):
             l, r = T(n.ch[0]), T(n.ch[1])
@@ -246,3 +254,61 @@ def sym_paths(g, start=None, seed=None, stops=None, max_paths=60000,
 
 def feasible_paths(g, **kw):
     return [p for p in sym_paths(g, **kw) if p.feasible()]
+
+
+# ---------------------------------------------------------------------------
+# per-source cache of feasible paths (shared by many rules)
+
+def cached_paths(ctx, facts, fname, max_paths=40000):
+    """feasible_paths of a function, memoised per context and on disk keyed
+    by the digest of the C source.  Returns None when the function has more
+    than ``max_paths`` paths."""
+    import hashlib
+    import os
+    import pickle
+    from .ccfg import get_ccfg
+    from .core import VERIF
+    store = ctx._cache.setdefault("sympath-store", {})
+    if "loaded" not in store:
+        digest = hashlib.sha256(("p4" + facts.src).encode()).hexdigest()[:24]
+        store["file"] = os.path.join(VERIF, ".cache", f"paths-{digest}.pkl")
+        store["data"] = {}
+        store["dirty"] = False
+        try:
+            with open(store["file"], "rb") as f:
+                store["data"] = pickle.load(f)
+        except Exception:
+            pass
+        store["loaded"] = True
+    key = (fname, max_paths)
+    if key not in store["data"]:
+        g = get_ccfg(ctx, facts, fname)
+        try:
+            store["data"][key] = feasible_paths(g, name=fname,
+                                                max_paths=max_paths)
+        except AnalysisError:
+            store["data"][key] = None
+        store["dirty"] = True
+    return store["data"][key]
+
+
+def flush_paths(ctx):
+    import os
+    import pickle
+    store = ctx._cache.get("sympath-store")
+    if not store or not store.get("dirty"):
+        return
+    try:
+        os.makedirs(os.path.dirname(store["file"]), exist_ok=True)
+        tmp = store["file"] + f".{os.getpid()}.tmp"
+        with open(tmp, "wb") as f:
+            pickle.dump(store["data"], f, protocol=pickle.HIGHEST_PROTOCOL)
+        os.replace(tmp, store["file"])
+        store["dirty"] = False
+        d = os.path.dirname(store["file"])
+        files = sorted((os.path.getmtime(os.path.join(d, x)), x)
+                       for x in os.listdir(d) if x.startswith("paths-"))
+        for _, x in files[:-20]:
+            os.remove(os.path.join(d, x))
+    except OSError:
+        pass
